@@ -421,6 +421,8 @@ class Scheduler:
                     cands.append(w)
                 elif w.state == "idle" and pool.queue:
                     cands.append(w)
+            if pool.feeder.active():
+                cands.append(pool.feeder)
         # simplest alternative first: the worker that ran last, then by id
         cands.sort(key=lambda w: (0 if w is self.last_worker else 1, w.pool.pid, w.id))
         return cands
@@ -438,6 +440,13 @@ class Scheduler:
             sticky = self.cfg["sticky"]
             weights = [w.weight * (sticky if w is self.last_worker else 1) for w in cands]
             w = cands[self.ch.weighted(weights, "who")]
+        if w.state == "feeder":
+            k = [None, 1, 2, 5][self.ch.weighted([2, 4, 2, 1], "feed_chunks")]
+            n = w.pool._feed(k)
+            w.last_run = self.decisions
+            self.tr.shape("feed", w.pool.pid, k, n)
+            self.st.fault("lazy_task_feed")
+            return True
         pnum, pden = self.cfg["preempt"]
         if self.ch.flip(pnum, pden, "preempt?"):
             q = QUANTA[1 + self.ch.draw(len(QUANTA) - 1, "quantum")]
@@ -568,6 +577,15 @@ class Scheduler:
                     raise HarnessError("simulated worker thread survived the run")
 
 
+def _pickle_exc_obj(e):
+    """An exception object that survives pickling (else a RuntimeError with its text)."""
+    try:
+        pickle.loads(pickle.dumps(e))
+        return e
+    except Exception:
+        return RuntimeError(f"{type(e).__name__}: {e}")
+
+
 def _pickle_exc(e):
     try:
         return pickle.dumps(e)
@@ -588,7 +606,33 @@ class _Job:
         self.taken = 0
 
     def done(self):
-        return len(self.results) == self.n
+        return self.n is not None and len(self.results) == self.n
+
+
+class _Feeder:
+    """The pool's task-handler thread (one per pool, inside the PARENT process):
+    it pulls items from the submitted iterables and pickles them onto the task
+    queue concurrently with the parent's main thread.  A schedulable entity."""
+
+    state = "feeder"
+    id = -1
+    weight = 4
+    last_run = -1
+    _stalled = False
+
+    def __init__(self, pool):
+        self.pool = pool
+        self.feeds = []  # FIFO of dicts: job, source, func, star, chunksize, idx
+
+    def active(self):
+        return bool(self.feeds)
+
+    def mid_task(self):
+        return False
+
+
+def _reraise_helper(e):
+    raise e
 
 
 class SimPool:
@@ -613,6 +657,7 @@ class SimPool:
         self.initargs_blob = fork_dumps(self.initargs_live)
         self.state = "run"  # close terminated
         self.queue = []  # chunks: list of (job, idx, blob)
+        self.feeder = _Feeder(self)
         self.jobs = []
         self.created_at = sched.decisions
         # fork: children inherit the parent's view of the module globals
@@ -625,6 +670,8 @@ class SimPool:
         wts = sched.cfg["weights"]
         for w in self.workers:
             w.weight = wts[sched.ch.draw(len(wts), "speed")] if len(wts) > 1 else wts[0]
+        if sched.cfg.get("lazy_feed") and len(wts) > 1:
+            self.feeder.weight = wts[sched.ch.draw(len(wts), "feeder_speed")]
         sched.all_workers.extend(self.workers)
         sched.pools.append(self)
         sched.st.probe("pools_created")
@@ -638,20 +685,67 @@ class SimPool:
         if self.state != "run":
             raise ValueError("Pool not running")
 
-    def _submit(self, func, items, chunksize, ordered, star=False):
+    def _submit(self, func, items, chunksize, ordered, star=False, lazy_source=False):
+        """Enqueue a job.  Eager (default, and the simplest alternative): every item is
+        pulled and pickled now.  Lazy (cfg['lazy_feed'], drawn per job): as in CPython the
+        pool's task-handler thread pulls items from the iterable (imap*; for the map family
+        the list is taken at call time) and pickles them later, concurrently with the
+        parent's main thread - a drawn number of chunks at a time (Scheduler.step)."""
         self._check_running()
-        items = list(items)
-        job = _Job(len(self.jobs), len(items), ordered)
-        self.jobs.append(job)
         if chunksize is None or chunksize < 1:
             chunksize = 1
-        blobs = []
-        for idx, it_ in enumerate(items):
-            blobs.append((job.id, idx, pickle.dumps((func, it_, star))))
-        for i in range(0, len(blobs), chunksize):
-            self.queue.append(blobs[i : i + chunksize])
-        self.sched.tr.shape("submit", self.pid, job.id, len(items), chunksize)
+        sched = self.sched
+        lazy = bool(sched.cfg.get("lazy_feed")) and sched.ch.flip(1, 2, "lazy_this_job")
+        if not lazy_source:
+            items = list(items)  # the map family takes the list at call time (an error in the iterable surfaces here)
+        job = _Job(len(self.jobs), len(items) if isinstance(items, list) else None, ordered)
+        self.jobs.append(job)
+        feed = dict(job=job, source=iter(items), func=func, star=star, chunksize=chunksize, idx=0)
+        self.feeder.feeds.append(feed)
+        if not lazy:
+            self._feed(None)
+        sched.tr.shape("submit", self.pid, job.id, job.n, chunksize, lazy)
         return job
+
+    def _feed(self, nchunks):
+        """Task-handler progress: move up to `nchunks` chunks (None: everything) of the
+        oldest unfinished submission onto the task queue.  Runs in the parent's context."""
+        fed = 0
+        while self.feeder.feeds and (nchunks is None or fed < nchunks):
+            fd = self.feeder.feeds[0]
+            job = fd["job"]
+            chunk = []
+            finished = False
+            while len(chunk) < fd["chunksize"]:
+                try:
+                    it_ = next(fd["source"])
+                except StopIteration:
+                    finished = True
+                    break
+                except Exception as e:  # the iterable itself failed: delivered as that item's error
+                    chunk.append((job.id, fd["idx"], pickle.dumps((_reraise_helper, _pickle_exc_obj(e), False))))
+                    fd["idx"] += 1
+                    finished = True
+                    break
+                try:
+                    blob = pickle.dumps((fd["func"], it_, fd["star"]))
+                except Exception as e:
+                    # as in CPython's task handler: a task that cannot be pickled is reported
+                    # as that item's result, the remaining items are still sent
+                    job.results[fd["idx"]] = (False, _pickle_exc(e))
+                    job.arrival.append(fd["idx"])
+                    fd["idx"] += 1
+                    continue
+                chunk.append((job.id, fd["idx"], blob))
+                fd["idx"] += 1
+            if chunk:
+                self.queue.append(chunk)
+                fed += 1
+            if finished:
+                if job.n is None or job.n != fd["idx"]:
+                    job.n = fd["idx"]
+                self.feeder.feeds.pop(0)
+        return fed
 
     def _spawn_replacement(self, old):
         # runs on the exiting worker's thread while it holds the baton
@@ -691,12 +785,12 @@ class SimPool:
     # -- the Pool surface ----------------------------------------------------
 
     def imap_unordered(self, func, iterable, chunksize=1):
-        job = self._submit(func, iterable, chunksize, ordered=False)
+        job = self._submit(func, iterable, chunksize, ordered=False, lazy_source=True)
         self.sched.progress("imap_unordered")
         return _ResultIter(self, job)
 
     def imap(self, func, iterable, chunksize=1):
-        job = self._submit(func, iterable, chunksize, ordered=True)
+        job = self._submit(func, iterable, chunksize, ordered=True, lazy_source=True)
         self.sched.progress("imap")
         return _ResultIter(self, job)
 
@@ -738,7 +832,7 @@ class SimPool:
             raise ValueError("Pool is still running")
         if self.state == "close":
             self.sched.run_until(
-                lambda: not self.queue and not any(w.state == "running" for w in self.workers),
+                lambda: not self.queue and not self.feeder.active() and not any(w.state == "running" for w in self.workers),
                 "join",
             )
             self._kill_all(count=False)
@@ -769,8 +863,9 @@ class SimPool:
                 if w.thread.is_alive():
                     raise HarnessError("could not kill simulated worker")
                 w.state = "dead"
-        lost = len(self.queue)
+        lost = len(self.queue) + len(self.feeder.feeds)
         self.queue = []
+        self.feeder.feeds = []
         self.state = "terminated"
         if count:
             if inflight or lost:
@@ -809,15 +904,20 @@ class _ResultIter:
             return self.k in job.results
         return self.k < len(job.arrival)
 
+    def _exhausted(self):
+        return self.job.n is not None and self.k >= self.job.n
+
     def __next__(self, timeout=None):
         job = self.job
-        if self.k >= job.n:
+        if self._exhausted():
             raise StopIteration
         sched = self.pool.sched
         if self._ready():
             sched.progress("next")
         else:
-            sched.run_until(self._ready, f"next() of job {job.id} item {self.k}")
+            sched.run_until(lambda: self._ready() or self._exhausted(), f"next() of job {job.id} item {self.k}")
+            if not self._ready():
+                raise StopIteration
         idx = self.k if job.ordered else job.arrival[self.k]
         self.k += 1
         return SimPool._value(job.results[idx])
